@@ -22,7 +22,7 @@ FILES = {
     "fix_int.go": ["C14"], "fix_float.go": ["C14"], "fix_boolean.go": ["C14"], "fix_utc_timestamp.go": ["C14"], "fix_decimal.go": ["C14"],
     "datadictionary/datadictionary.go": ["C19", "C15"], "internal/time_range.go": ["C18"],
     "store/file/file_store.go": ["C16", "C17", "C03"], "store/sql/sql_store.go": ["C16", "C17"], "memory_store.go": ["C16", "C03"],
-    "store/file/util.go": ["C16", "C17"], "session_factory.go": ["C07", "C18", "C09", "C20"],
+    "store/file/util.go": ["C16", "C17"], "session_factory.go": ["C07", "C18", "C09", "C20", "C15"],
 }
 OPS = [
     (r"==", "!="), (r"!=", "=="), (r"<=", "<"), (r">=", ">"), (r"(?<![<\-=!>])<(?![=\-<])", "<="), (r"(?<![>\-=!<])>(?![=>])", ">="),
